@@ -112,6 +112,8 @@ def parse_ast_constraint(ctc_info: Dict[str, Any]) -> Node:
     node = None
     if ctc_type == JSONFeatureType.FEATURE.value:
         feature_name = ctc_info['operands'][0]
+        if not isinstance(feature_name, str):
+            raise ParsingException(f'Invalid feature term in JSON constraint: {ctc_info}')
         node = Node(feature_name)
     elif ctc_type == ASTOperation.NOT.value:
         left = parse_ast_constraint(ctc_operands[0])
